@@ -21,6 +21,7 @@ package state
 //@   ensures[absent-is-nil] !result1 ==> isnil(result0)
 //@   ensures[width] result1 ==> width(result0) == w
 //@   ensures[value] result1 ==> val(result0) == ext(reg_last(kk), w)
+//@   ensures[reads-only] heap_unchanged()
 
 //@ func (*State).Apply
 //@   enum h in REGHIST, e in EFFECTS
